@@ -42,7 +42,7 @@ def sites_for(facts, rep, V, rule, fn_pred):
         if root is None or not fn_pred(root):
             continue
         n += 1
-        rep.ob(rule, b.id, s.desc, r is not None, ("%s: %s" % r) if r else (s.reason or "undischarged panic site: %s" % s.what), s.line)
+        rep.ob(rule, D.owner_id(b), s.desc, r is not None, ("%s: %s" % r) if r else (s.reason or "undischarged panic site: %s" % s.what), s.line)
     return n
 
 
@@ -61,10 +61,10 @@ def run(facts, rep, tier, ctx):
                 args = fmt(tr.operand(s.term.cond))[:100]
             why = s.reason or ("no discharge idiom proves this %s safe: %s(%s)" % (
                 "call" if s.kind == "call" else "arithmetic/bounds check", s.what, args))
-            rep.ob("R13.2", b.id, s.desc, False, why, s.line)
+            rep.ob("R13.2", D.owner_id(b), s.desc, False, why, s.line)
         else:
             idioms[r[0]] = idioms.get(r[0], 0) + 1
-            rep.ob("R13.2", b.id, s.desc, True, "%s: %s" % r, s.line)
+            rep.ob("R13.2", D.owner_id(b), s.desc, True, "%s: %s" % r, s.line)
     rep.note("discharge idiom usage: %s" % dict(sorted(idioms.items())))
     rep.floor("Assert terminators inventoried", n_assert, 20)
     rep.floor("panicking-callee call sites inventoried", n_call, 60)
